@@ -8,8 +8,8 @@ pessimistic-blocking form of the deadlock theorem.)
 
 Per entity the DAGMutex keeps a `StarvingMutex` and a consumer count.  A consumer registers (count + 1,
 mutex created on demand) in one critical section of `d.Mutex` **before** it blocks on the entity's mutex,
-and unregisters in another one before it unlocks; when the last consumer unregisters the entity's
-mutex and count are dropped from the maps.  `RLock(ids...)` registers all ids in one critical section and
+and unregisters in another one after it has unlocked (since the repair fdd3faa; before it: the other way round);
+when the last consumer unregisters the entity's mutex and count are dropped from the maps.  `RLock(ids...)` registers all ids in one critical section and
 then read-locks them one after the other in the given order; `Lock(id)` takes one entity.
 
 Here the entity's `StarvingMutex` is the abstract reader/writer lock that `C17_monitor_refines_rwlock`
@@ -18,8 +18,9 @@ Hive/Model/SyncMutex.lean) justify: a write lock is granted only when nobody hol
 it (`step`), and a goroutine that stays blocked at quiescence is blocked by a current holder
 (`blocked`, the pessimistic reading used by the deadlock theorem: a reader queued behind a parked
 writer also waits for the readers that block that writer).  The critical sections of `d.Mutex` contain
-no blocking operation and are single steps; an unlock (unregister, then `StarvingMutex.Unlock/RUnlock`)
-is one step as well: the holder counts as having released from the moment it calls.
+no blocking operation and are single steps; an unlock (lookup, `StarvingMutex.Unlock/RUnlock`, unregister)
+is one step as well — the order inside it is not visible at this level: the holder counts as having released from
+the moment it calls.
 
 `fixed = true` is the code after the repair of `unregisterMutex` (the last consumer also unlocks the
 mutex it removes, so that unlocking in the wrong mode panics); `fixed = false` is the code before.
@@ -69,7 +70,7 @@ def register (s : DSh) (x : Nat) : DSh := upd s x { s x with cnt := (s x).cnt + 
 
 def registerAll (s : DSh) (xs : List Nat) : DSh := xs.foldl register s
 
-/-- `unregisterMutex(x)` followed by the `StarvingMutex` unlock in mode `md`; `none` = panic. -/
+/-- the `StarvingMutex` unlock in mode `md` together with `unregisterMutex(x)`; `none` = panic. -/
 def unlockEnt (fixed : Bool) (md : Mode) (s : DSh) (x : Nat) : Option DSh :=
   let e := s x
   if e.cnt = 0 then none                       -- "called Unlock or RUnlock too often"
